@@ -68,8 +68,8 @@ CLAIMED = {
    technique="Lean 4 proof (history invariant by induction over arbitrary two-clock schedules; finite gray-code tables by decide +kernel) + edge-exact two-clock co-simulation + Lean stream specification evaluated on implementation runs",
    design="§6 C08"),
  "C09": dict(
-   text="Cycle-accurate Lean model of LiteDRAMAXI2Native: LiteX AXIBurst2Beat, channel buffers, buffered write/read FIFOs with their reservation counters, write-ID/response FIFOs (storage modelled exactly), round-robin arbitration and the read-modify-write FSM, co-simulated against the real module for data widths 16..128, buffer depths 2..16, base addresses, with and without read-modify-write under legal AXI4 traffic (FIXED/INCR/WRAP, lengths 1..16, narrow sizes, unaligned starts, strobes inside the active lanes, W leading or trailing AW, stalls on all five channels incl. long B/R back-pressure); two Lean specifications are evaluated on the real module: Spec/AxiSpec (one B per burst in order with its ID and only after its data reached the native port; len+1 R beats with ID and LAST in order) and Spec/PortMemory (strobed bytes, read-after-response); theorems: FIXED/INCR address sequences of the burst-to-beat generator, byte-exact read-modify-write merge, RMW starts only on a drained write path and what each RMW state does, read reservation bounded for every run, command source/arbitration. Three genuine defects found and fixed.",
-   note="Trusted: Lean kernel; Spec/AxiSpec.lean, Spec/PortMemory.lean; native-side stub written from crossbar.py; the master avoids read/write hazards so the memory specification is sequential; WRAP addresses are checked against an independent AXI reference in the harness (no theorem).",
+   text="Cycle-accurate Lean model of LiteDRAMAXI2Native: LiteX AXIBurst2Beat, channel buffers, buffered write/read FIFOs with their reservation counters, write-ID/response FIFOs (storage modelled exactly), round-robin arbitration and the read-modify-write FSM, co-simulated against the real module for data widths 16..128, buffer depths 2..16, base addresses, with and without read-modify-write under legal AXI4 traffic (FIXED/INCR/WRAP, lengths 1..16, narrow sizes, unaligned starts, strobes inside the active lanes, W leading or trailing AW, stalls on all five channels incl. long B/R back-pressure); two Lean specifications are evaluated on the real module: Spec/AxiSpec (one B per burst in order with its ID and only after its data reached the native port; len+1 R beats with ID and LAST in order) and Spec/PortMemory (strobed bytes, read-after-response); theorems: FIXED/INCR/WRAP address sequences of the burst-to-beat generator, byte-exact read-modify-write merge, RMW starts only on a drained write path and what each RMW state does, read reservation bounded for every run, command source/arbitration. Three genuine defects found and fixed.",
+   note="Trusted: Lean kernel; Spec/AxiSpec.lean, Spec/PortMemory.lean; native-side stub written from crossbar.py; the master avoids read/write hazards so the memory specification is sequential.",
    technique="Lean 4 proof (address-generator induction step, byte-level merge induction, invariants over runs) + cycle-exact co-simulation + two Lean specifications evaluated on implementation runs",
    design="§6 C09"),
  "C10": dict(
